@@ -297,12 +297,12 @@ TABLE.hasattr_ = _hasattr
 @TABLE.register("xmlrpc.server.resolve_dotted_attribute")
 def _resolve_dotted(ex, st, args, kwargs, text):
     """resolve_dotted_attribute(obj, name, True): AttributeError if a '.'-segment starts with '_' or is
-    missing, else the attribute; invokes nothing"""
+    missing, else the attribute (assumed not None: a registered instance exposes callables); invokes nothing"""
     obj, name = ex.lift(args[0]), ex.lift(args[1])
     m = Val.s(name)
     ok = z3.And(V.is_str(name), resolvable(obj, m))
     st = st.copy()
-    st.assume(z3.Implies(resolvable(obj, m), z3.Not(private_segment(m))))
+    st.assume(z3.Implies(resolvable(obj, m), z3.And(z3.Not(private_segment(m)), z3.Not(V.is_none(resolved(obj, m))))))
     return ex.apply_op(st, [(ok, ("val", resolved(obj, m))), (z3.Not(ok), ("raise", AttributeError))], "resolve_dotted")
 
 
@@ -464,3 +464,9 @@ def xlate_call(ex, st, f, argv, kw, text, base=Exception):
     return [(s_ok, ("val", ret)), (s_ex, ("raise", e))]
 
 TABLE.xlate_call = xlate_call
+
+
+def exact_keys(d, pairs):
+    """d has exactly the str keys whose condition holds (key set and length)"""
+    pairs = [(n, (z3.BoolVal(True) if c is True else c)) for n, c in pairs]
+    return z3.And(Val.dhas(d) == keyset_if(pairs), Val.dlen(d) == z3.Sum([z3.If(c, 1, 0) for _, c in pairs]))
